@@ -1213,6 +1213,11 @@ func (x *Exec) execInstr(fr *frame, st *State, in ssa.Instruction) error {
 			if err := vc.storeObject(st, ref, et, vc.zeroOf(et)); err != nil {
 				return err
 			}
+			if isBigIntPtr(i.Type()) {
+				// new(big.Int): the zero value of a big.Int is the number 0
+				bs := arraySort(SInt, SInt)
+				vc.setHeap(st, "big.Int", Store(vc.heapGet(st, "big.Int", bs), ref, intLit64(0)), -1)
+			}
 			// a local that never leaves this function (only read/written directly, or captured
 			// by closures that are only run by go/defer/direct call) cannot be touched by calls
 			// with unknown effects
